@@ -23,6 +23,7 @@ type rcfg struct {
 	MaxHeight int     `json:"maxHeight"`
 	MaxTx     int     `json:"maxTx"`
 	BurnNums  []int64 `json:"burnNums"`
+	Exports   int     `json:"exports"` // export/import restarts allowed per history
 }
 
 type rec map[string]interface{}
@@ -168,6 +169,7 @@ func randomRun(cfgPath string, seed int64, nbeh int, outPath string) error {
 		set := applyUpd(map[int]int64{}, res.Updates)
 		vs = [3]map[int]int64{{}, set, set}
 		halted := res.Class == "halt"
+		exports := 0
 		for h := 1; h <= rc.MaxHeight && !halted; h++ {
 			st := r.A.Project()
 			votes := [][3]int64{}
@@ -259,6 +261,32 @@ func randomRun(cfgPath string, seed int64, nbeh int, outPath string) error {
 			}
 			vs = [3]map[int]int64{vs[1], vs[2], applyUpd(vs[2], res.Updates)}
 			do(rec{"a": "Commit"})
+			// now and then: stop the chain, export its state and restart a new chain from the export
+			// (only with empty award/burn queues: the export does not carry them)
+			if rc.Exports > 0 && exports < rc.Exports && rng.Intn(6) == 0 && h < rc.MaxHeight {
+				cur := r.A.Project()
+				empty := true
+				for _, x := range cur.AwardQ {
+					if x != 0 {
+						empty = false
+					}
+				}
+				for _, x := range cur.BurnQ {
+					if x != "" {
+						empty = false
+					}
+				}
+				if empty {
+					res = do(rec{"a": "ExportImport"})
+					exports++
+					if res.Class == "halt" {
+						halted = true
+						break
+					}
+					set := applyUpd(map[int]int64{}, res.Updates)
+					vs = [3]map[int]int64{{}, set, set}
+				}
+			}
 		}
 		r.A.Close()
 	}
